@@ -55,7 +55,7 @@ def cases():
             for warm in (False, True):          # warm: caches were materialised BEFORE the growth
                 for how in ('append', 'extend'):
                     for ki, key in enumerate(keys):
-                        for container in ('index', 'series', 'frame_cols', 'frame_getitem'):
+                        for container in ('index', 'series', 'frame_cols', 'frame_getitem', 'loc_to_iloc') + (('iter_label', 'iter_label_items') if ki == 0 else ()):
                             yield (name, go_cls, st_cls, init, extra[:n_app], warm, how, ki, key, container)
 
 
@@ -101,15 +101,22 @@ def run(repo, task):
     import static_frame as sf
     rep = Report('C04-go-selection', task,
                  rule='grow-only index / FrameGO columns of 6 label families (3 datetime resolutions, str, int, auto-integer) x 1..3 appended labels x '
-                      'cache warm/cold x append/extend x every key (scalar, coarser-resolution datetime, list, slice, absent) x 4 selection routes; '
+                      'cache warm/cold x append/extend x every key (scalar, coarser-resolution datetime, list, slice, absent) x 4 selection routes + the public loc_to_iloc and the label iterators as first read; '
                       'non-trivial when the static reference returns data or a lookup error',
                  bound='<= 5 labels, <= 15 keys per family')
     for (name, go_cls, st_cls, init, extra, warm, how, ki, key, container) in rep.shard(cases()):
         rp = dict(family=name, n_app=len(extra), warm=warm, how=how, ki=ki, container=container)
         try:
-            if container in ('index', 'series'):
+            if container in ('index', 'series', 'loc_to_iloc', 'iter_label', 'iter_label_items'):
                 go, st = _build(go_cls, st_cls, init, extra, warm, how)
-                if container == 'index':
+                if container == 'loc_to_iloc':          # the public label -> position translation as the FIRST read after the growth
+                    a, b = _try(lambda: np.asarray(go.loc_to_iloc(key)) if not isinstance(go.loc_to_iloc(key), slice) else repr(go.loc_to_iloc(key))), \
+                           _try(lambda: np.asarray(st.loc_to_iloc(key)) if not isinstance(st.loc_to_iloc(key), slice) else repr(st.loc_to_iloc(key)))
+                elif container == 'iter_label':
+                    a, b = _try(lambda: list(map(str, go.iter_label()))), _try(lambda: list(map(str, st.iter_label())))
+                elif container == 'iter_label_items':
+                    a, b = _try(lambda: [(int(p), str(l)) for p, l in go._iter_label_items()]), _try(lambda: [(int(p), str(l)) for p, l in st._iter_label_items()])
+                elif container == 'index':
                     a, b = _try(lambda: go.loc[key]), _try(lambda: st.loc[key])
                 else:
                     vals = list(range(len(st)))
